@@ -76,6 +76,8 @@ fn filtered(tree: &Tree, e: &Entry) -> Vec<RuleGroup> {
     }
 }
 
+thread_local! { static ABORTED: std::cell::RefCell<Option<String>> = const { std::cell::RefCell::new(None) }; }
+
 /// the model: final words of a tag (None if any stage errors), number of stages that changed words
 fn model(tree: &Tree, ti: usize, memo: &mut Vec<Option<Option<(Vec<String>, usize)>>>) -> Option<(Vec<String>, usize)> {
     if let Some(m) = &memo[ti] { return m.clone() }
@@ -86,7 +88,7 @@ fn model(tree: &Tree, ti: usize, memo: &mut Vec<Option<Option<(Vec<String>, usiz
         for wf in &t.words { if !words.is_empty() { words.push(String::new()) } words.extend(tree.word_files.iter().find(|f| f.0 == *wf).unwrap().1.clone()); }
         let into: Vec<String> = if t.alias { tree.into.clone() } else { vec![] };
         for e in &t.entries {
-            let next = run_pub(&filtered(tree, e), &words, &into, &[]).ok()?;
+            let next = match run_pub(&filtered(tree, e), &words, &into, &[]) { Ok(n) => n, Err(Applied::Abort(sig)) => { ABORTED.with(|a| *a.borrow_mut() = Some(sig)); return None } Err(_) => return None };
             if next != words { changed += 1 }
             words = next;
         }
@@ -126,7 +128,10 @@ fn one(r: &mut Rng, rep: &mut Report, i: u64, shard: usize, seed: u64) {
         let ran = run_asca(&dir, &["seq", ".", "-o", "-y"]);
         if ran.timed_out { rep.obs("watchdog_inconclusive", 1); cleanup(&dir); return }
         let mut memo = vec![None; tree.tags.len()];
+        ABORTED.with(|a| *a.borrow_mut() = None);
         let exp: Vec<Option<(Vec<String>, usize)>> = (0..tree.tags.len()).map(|t| model(&tree, t, &mut memo)).collect();
+        // a panic or an exhausted step budget inside the library is C02's finding; the binary can only do the same
+        if let Some(sig) = ABORTED.with(|a| a.borrow_mut().take()) { rep.abort(sig, files); cleanup(&dir); return }
         let mut ok = true;
         if ran.code != Some(0) { rep.violation("seq:exit-status".into(), || json!({"case": files(), "code": ran.code, "stderr": ran.stderr, "stdout": ran.stdout.chars().take(1500).collect::<String>()})); ok = false; }
         if ok { for (ti, t) in tree.tags.iter().enumerate() {
